@@ -10,6 +10,7 @@
 (*   mapkv kv (the same, emitted key by key and value by value)            *)
 (*   struct fields (<<name, value>>) | struct_variant variant fields       *)
 (*   fail msg   (a value whose own Serialize implementation fails)         *)
+(*   skipped    (only as the value of a struct field: the field is skipped) *)
 (*   hr x y     (a value that serializes as x for human-readable formats   *)
 (*              and as y for compact ones: Value, like JSON, is the former) *)
 (***************************************************************************)
@@ -33,7 +34,10 @@ KeyOf(t) == IF t.k = "str" THEN [ok |-> TRUE, cs |-> t.cs]
 RECURSIVE Image(_), ImageSeq(_, _, _), ImageFields(_, _, _), ImageMap(_, _, _)
 ImageSeq(xs, i, acc) == IF i > Len(xs) THEN SOk(VVec(acc))
                         ELSE LET r == Image(xs[i]) IN IF r.ok THEN ImageSeq(xs, i + 1, Append(acc, r.v)) ELSE SErr
+\* a field may be SKIPPED (what a derived implementation does for `skip_serializing_if`): it is announced to the
+\* serializer but is not part of the data
 ImageFields(fs, i, acc) == IF i > Len(fs) THEN SOk(VMap(acc))
+                           ELSE IF fs[i][2].k = "skipped" THEN ImageFields(fs, i + 1, acc)
                            ELSE LET r == Image(fs[i][2]) IN IF r.ok THEN ImageFields(fs, i + 1, MapPut(acc, fs[i][1], r.v)) ELSE SErr
 ImageMap(kv, i, acc) == IF i > Len(kv) THEN SOk(VMap(acc))
                         ELSE LET key == KeyOf(kv[i][1]) IN
@@ -68,7 +72,7 @@ Bad(t) ==
     [] t.k \in {"some", "newtype_struct", "newtype_variant", "hr"} -> Bad(t.x)
     [] t.k \in SeqKinds \cup {"tuple_variant"} -> \E i \in 1..Len(t.xs) : Bad(t.xs[i])
     [] t.k \in MapKinds -> \E i \in 1..Len(t.kv) : ~KeyOf(t.kv[i][1]).ok \/ Bad(t.kv[i][2])
-    [] t.k \in {"struct", "struct_variant"} -> \E i \in 1..Len(t.fields) : Bad(t.fields[i][2])
+    [] t.k \in {"struct", "struct_variant"} -> \E i \in 1..Len(t.fields) : t.fields[i][2].k # "skipped" /\ Bad(t.fields[i][2])
     [] OTHER -> FALSE
 
 \* JSON-representable data: finite floats, integers within 64 bits (and nothing failing)
@@ -79,7 +83,7 @@ JsonRep(t) ==
     [] t.k \in {"some", "newtype_struct", "newtype_variant", "hr"} -> JsonRep(t.x)
     [] t.k \in SeqKinds \cup {"tuple_variant"} -> \A i \in 1..Len(t.xs) : JsonRep(t.xs[i])
     [] t.k \in MapKinds -> \A i \in 1..Len(t.kv) : KeyOf(t.kv[i][1]).ok /\ JsonRep(t.kv[i][2])
-    [] t.k \in {"struct", "struct_variant"} -> \A i \in 1..Len(t.fields) : JsonRep(t.fields[i][2])
+    [] t.k \in {"struct", "struct_variant"} -> \A i \in 1..Len(t.fields) : t.fields[i][2].k = "skipped" \/ JsonRep(t.fields[i][2])
     [] t.k = "fail" -> FALSE
     [] OTHER -> TRUE
 =============================================================================
